@@ -356,10 +356,6 @@ class Unmodelled(Exception):
     pass
 
 
-def circ_close(a, b, period=2.0, atol=1e-8):
-    d = abs((a - b) % period)
-    return min(d, period - d) <= atol
-
 
 class Describer:
     """Gate / operation / family / gateset -> Gallina terms of Xform/Gateset.v.  Type ids follow class objects, tag ids
